@@ -149,12 +149,21 @@ def make_project(rng, root, truth, prestates, method=False, rich=False, kinds=KI
     if ir is None:
         ir, _ = g.ir()
         ir = ir if wild else restrict_ir(ir)
+    stale_prose_only = False
     if stale_ir is None:
         stale_ir, _ = g.ir()
         stale_ir = stale_ir if wild else restrict_ir(stale_ir)
         stale_ir["doc"] = "Stale zqstale summary"
+        if rng.random() < 0.3:
+            # out of date in its words only: names, order, types and defaults already agree with the truth
+            stale_ir = deepcopy(ir)
+            stale_ir["doc"] = "Stale zqstale summary"
+            for n, prm in stale_ir["params"].items():
+                if prm.get("doc") and rng.random() < 0.7:
+                    prm["doc"] = "outdated zqstale words about " + n
+            stale_prose_only = True
     p.truth_ir, p.stale_ir = ir, stale_ir
-    feats = {"truth": truth, "method": method, "rich": rich, "n_kinds": len(kinds), "wild": wild}
+    feats = {"truth": truth, "method": method, "rich": rich, "n_kinds": len(kinds), "wild": wild, "stale_prose_only": stale_prose_only}
     todo = [(kind, os.path.join(root, FILE_OF[kind]), "truth" if kind == truth else prestates[kind], False) for kind in kinds]
     if extra_same_kind:
         # a second target file of the truth's own kind, whose path sorts BEFORE the truth file's
